@@ -136,6 +136,7 @@ Ev == [ev |-> "wrap", tag |-> "MC", text |-> text, o |-> o,
        status |-> (IF fault = "none" THEN "ok" ELSE "panic")]
 AllOk(cs) == \A x \in 1..Len(cs) : cs[x].ok \/ (PrintT(<<"FAILED", cs[x].p, cs[x].c, cs[x].r>>) /\ FALSE)
 PropWrap == pc = "done" => AllOk(Judge_wrap(Ev))
-Terminates == <>(pc = "done" \/ pc = "type")
+\* once a call has begun it returns (checked under weak fairness of the step actions: the algorithms terminate)
+Terminates == (pc # "type") ~> (pc = "done")
 Emit == pc = "done" => PrintT(<<"REPLAY", ToJson([k |-> "wrap", text |-> text, o |-> o])>>)
 =============================================================================
